@@ -33,6 +33,8 @@ class Contract:
     stmt_nth: int = 0                # which assignment to `stmt` (0-based) when none has that shape
     block: tuple = ()                # block contract: (first assigned name, last assigned name)
     block_like: str = ''             # shape of the first statement's right-hand side (renamed locals)
+    block_skip: object = 0           # leading statements (int) or statement indices (tuple) of the block left
+                                     # out: what they compute is a parameter of the contract
     custom: object = None            # callable(verifier, contract, fdef, consts) -> obligations
     tag: str = ''                    # distinguishes several contracts on one function
     relate: dict = None              # relational (two-run) contract: {'extra': {name: spec}, 'second': {param: CL}}
